@@ -13,6 +13,8 @@ type vNode struct {
 	priv string
 }
 
+type vBytesIn struct{ id [2]byte }
+
 type vErrT struct{}
 
 func (*vErrT) Error() string { return "typed nil" }
@@ -56,6 +58,18 @@ func VC_C19_render() {
 		reflect.ValueOf([]int{1, 2}),
 		reflect.ValueOf(map[string]int{"a": 1}),
 		reflect.ValueOf(cyc),                   // interface cycle
+		reflect.ValueOf([4]byte{1, 2, 3, 4}),   // byte array by value (not addressable)
+		reflect.ValueOf([]byte{1, 2}),          // byte slice
+		reflect.ValueOf([]byte(nil)),           // nil byte slice
+		reflect.ValueOf(vBytesIn{id: [2]byte{7, 8}}), // struct holding a byte array
+		reflect.ValueOf([2]string{"a", "b"}),   // array of another element type
+		reflect.ValueOf(func() {}),             // func
+		reflect.ValueOf((func())(nil)),         // nil func
+		reflect.ValueOf(map[string]*int{"n": nil}), // map holding a nil pointer
+		reflect.ValueOf([]*int{nil, px}),       // slice holding a nil pointer
+		reflect.ValueOf(&[]int{1}),             // pointer to slice
+		reflect.ValueOf(uint8(200)),
+		reflect.ValueOf(true),
 	}
 	k := verifChoice("case", len(vals))
 	panicked := false
